@@ -11,6 +11,9 @@ from common import Stats, hx, unhx
 
 # the 2-byte letter is 'à' (C3 A0): its continuation byte is NBSP when mis-read as Latin-1; it is an ordinary character here
 ALPHA_DEFAULT = [b"a", "à".encode(), b" ", b"\n", b"\t", b"'", b'"', b"\\"]
+ALPHA_CRFF = [b"a", b" ", b"\n", b"\r", b"\f", b"'", b"\\"]
+ALPHA_RAW = [b"a", b"\xe9", b"\xc3", b"\xa9", b" ", b"\n", b"'", b"\\"]         # 0xc3 0xa9 = é; alone they are invalid UTF-8
+ALPHA_RAW_NUL = [b"a", b"\xe9", b"\xc3", b"\xa9", b"\0", b" ", b"\n"]
 ALPHA_NUL = [b"a", "à".encode(), b"\0", b"'", b"\\", b" ", b"\n", b'"']
 ALPHA_COMMA = [b"a", "à".encode(), b",", b"'", b"\\", b" ", b"\n", b'"']
 
@@ -32,7 +35,16 @@ def judge_default(st, data, status, payload, source, replay):
     if status == "panic":
         st.violate("panic", None, {"input": data, "panic": unhx(payload).decode("utf-8", "replace")}, replay)
         return
-    if not ref.in_domain and ref.error is None:
+    alt = None
+    if ref.other_ws and b"\v" not in data and b"\0" not in data and (b"\r" in data or b"\f" in data):
+        # CR / FF: "blank" or ordinary byte? The statement leaves that to ctype; either reading is accepted, but nothing else -
+        # in particular no reading makes CR or FF the end of an input line
+        alt = xref.tokenize(data, extra_seps=b"\r\f")
+        if ref.in_domain_apart_from_other_ws and alt.in_domain and (ref.error is None) == (alt.error is None):
+            st.inc("inputs_with_CR_or_FF_judged_under_both_readings")
+        else:
+            alt = None
+    if alt is None and not ref.in_domain and ref.error is None:
         st.inc("out_of_domain(empty-quoted-token|newline-in-quote|trailing-backslash)")
         return
     if ref.error:
@@ -47,7 +59,7 @@ def judge_default(st, data, status, payload, source, replay):
     st.inc("evaluations")
     if ref.tokens:
         st.add("distinct", data if len(data) < 24 else common.hashlib.sha1(data).hexdigest())
-    if got != ref.tokens:
+    if got != ref.tokens and not (alt is not None and got == alt.tokens):
         kind = "tokens-differ"
         if [t for t, _ in got] == [t for t, _ in ref.tokens]:
             kind = "line-end-flags-differ"
@@ -78,7 +90,7 @@ def judge_delim(st, data, d, status, payload, source, replay):
 def exhaustive_worker(job):
     k, n, alpha, maxlen, delim, allcuts, base = job
     st = Stats()
-    of = os.path.join(base, "sx-%d-%d.tsv" % (delim, k))
+    of = os.path.join(base, "sx-%d-%d-%s.tsv" % (delim, k, common.hashlib.sha1(b"|".join(alpha)).hexdigest()[:8]))
     rc, out, err, to = common.run_cmd([common.VH, "splitx", of, ",".join(hx(a) for a in alpha), str(maxlen), str(k), str(n),
                                        str(delim), str(allcuts)], timeout=3000)
     if rc != 0 or to:
@@ -117,12 +129,15 @@ def exhaustive_worker(job):
 # multi-byte words include characters whose continuation bytes are 0x85 / 0xA0 (NEL / NBSP in Latin-1) and the real NBSP, NEL, and
 # other Unicode blanks: in default mode only ASCII blank, tab and newline separate arguments
 WORDS = [b"a", b"bc", b"x" * 7, "é".encode(), "日本".encode(), b"tok", b"w" * 40, "à".encode(), "Å".encode(), "亅".encode(), "a\u00a0b".encode(),
-         "n\u0085l".encode(), "\u2003em".encode(), "ẅ\u3000".encode(), "🙂".encode()]
+         "n\u0085l".encode(), "\u2003em".encode(), "ẅ\u3000".encode(), "🙂".encode(),
+         # bytes that are not valid UTF-8 (file names in a legacy encoding, truncated sequences): "every other byte reaches the command unchanged"
+         b"caf\xe9", b"\xff\xfe", b"\x80", b"a\xc3", b"\xe6\x97", b"\xf0\x9f\x99", b"\xc0\xaf", b"x\xa0y"]
 
 
 def long_input(rng, target_len, delim=None):
     """Random input whose tokens/quotes/escapes straddle the 4096/8192 buffer edges."""
     out = bytearray()
+    crff = delim is None and rng.random() < 0.3
     while len(out) < target_len:
         r = rng.random()
         if delim is not None:
@@ -133,7 +148,7 @@ def long_input(rng, target_len, delim=None):
             continue
         near = min(abs(len(out) - 4096), abs(len(out) - 8192)) < 12
         if r < 0.25:
-            out += rng.choice([b" ", b"\n", b"\t", b"  ", b" \n", b"\n\n"])
+            out += rng.choice([b" ", b"\n", b"\t", b"  ", b" \n", b"\n\n"] + ([b"\r", b"\f", b"\r\n", b" \r"] if crff else []))
         elif r < 0.4 or (near and r < 0.6):
             q = rng.choice([b"'", b'"'])
             inner = b" ".join(rng.choice(WORDS) for _ in range(rng.randint(1, 3)))
@@ -217,7 +232,10 @@ def random_worker(job):
 # ("\\0" is rejected by this implementation — pinned by its own unit test test_delimiter_parsing — so it is not used; -0 covers NUL)
 DELIM_SPELLINGS = [(7, "\\a"), (8, "\\b"), (12, "\\f"), (10, "\\n"), (13, "\\r"), (9, "\\t"), (11, "\\v"), (92, "\\\\"),
                    (44, ","), (44, "\\x2c"), (44, "\\054"), (11, "\\x0b"), (12, "\\014"), (9, "\\x09"), (58, ":"), (97, "a"), (32, " "),
-                   (10, "\\012"), (7, "\\x07"), (39, "'"), (34, '"')]
+                   (10, "\\012"), (7, "\\x07"), (39, "'"), (34, '"'),
+                   # bytes >= 0x80 can only be spelled as escapes; the data around them contains multi-byte characters with that byte
+                   (0xff, "\\xff"), (0xff, "\\0377"), (0xa0, "\\xa0"), (0x85, "\\x85"), (0x80, "\\0200"), (0xc3, "\\xc3"), (0xa9, "\\xa9"),
+                   (0x7f, "\\x7f"), (0xe9, "\\xe9")]
 
 
 def binary_worker(job):
@@ -318,6 +336,9 @@ def run(ctx):
     L = ctx.scale(6, 8)
     jobs = [(k, nw, ALPHA_DEFAULT, L, -1, ctx.scale(6, 8), base) for k in range(nw)]
     jobs += [(k, nw, ALPHA_NUL, ctx.scale(5, 7), 0, 7, base) for k in range(nw)]
+    jobs += [(k, nw, ALPHA_CRFF, ctx.scale(6, 8), -1, 6, base) for k in range(nw)]
+    jobs += [(k, nw, ALPHA_RAW, ctx.scale(5, 7), -1, 6, base) for k in range(nw)]
+    jobs += [(k, nw, ALPHA_RAW_NUL, ctx.scale(5, 7), 0, 6, base) for k in range(nw)]
     jobs += [(k, nw, ALPHA_COMMA, ctx.scale(5, 6), ord(","), 7, base) for k in range(nw)]
     ctx.pmap(exhaustive_worker, jobs)
     ctx.exhaustive = True
